@@ -170,6 +170,25 @@ def run(p):
         p.check(max(d1, d2) <= 1e-12 * mag, 'enu:inverse', 'enu', inp, [list(map(float, back1)), list(map(float, back2))], [e, n, u], call)
         p.check(max(l1, l2) <= 1e-12 * mag, 'enu:length', 'enu_length', inp,
                 [math.sqrt(sum(float(c) ** 2 for c in xyz)), math.sqrt(sum(float(c) ** 2 for c in enu))], mag, call)
+        # latitude / longitude handed over as angle objects: the frame is that of the position the object denotes
+        if rng.random() < 0.15:
+            import geodepy.angles as A
+            cls, mk = rng.choice([('DEC', A.DECAngle), ('HP', A.dec2hpa), ('GON', A.dec2gona), ('DMS', A.dec2dms), ('DDM', A.dec2ddm)])
+            try:
+                alat, alon = mk(lat), mk(lon)
+                dlat, dlon = alat.dec(), alon.dec()
+            except Exception:  # noqa  (the angle module's own domain, C08)
+                alat = None
+            if alat is not None:
+                p.case('enu_angle_objects', inp + [cls])
+                oka, ra = p.guarded('enu:raises', 'enu_angle_objects', inp + [cls],
+                                    lambda: (GD.enu2xyz(alat, alon, e, n, u), GD.xyz2enu(alat, alon, e, n, u)),
+                                    f'enu2xyz / xyz2enu with {cls} objects of {lat!r}, {lon!r}')
+                if oka:
+                    exa = (GD.enu2xyz(dlat, dlon, e, n, u), GD.xyz2enu(dlat, dlon, e, n, u))
+                    same = all(abs(float(a) - float(b)) <= 1e-12 * max(mag, 1e-300) for x, y in zip(ra, exa) for a, b in zip(x, y))
+                    p.check(same, 'enu:inverse', 'enu_angle_objects', inp + [cls], [list(map(float, ra[0])), list(map(float, ra[1]))],
+                            [list(map(float, exa[0])), list(map(float, exa[1]))], f'enu2xyz / xyz2enu with {cls} objects vs their .dec() values')
         # consistency with the rotation matrix: xyz = R enu
         R = ST.rotation_matrix(lat, lon)
         ex = R @ np.array([e, n, u])
